@@ -229,3 +229,10 @@ def _r12_5(ctx):
 # sensitivity pack (thorough tier): each seeded edit must be reported by the named rule instance
 MUTANTS = [{'name': 'seeded-C12-a', 'patch': 'C12-a/patch.diff', 'expect': ('R12.5', 'index_utxo_entries', 'merged(cached entry')},
            {'name': 'seeded-C12-b', 'patch': 'C12-b/patch.diff', 'expect': ('R12.6', 'Updater::commit', 'sat_ranges_since_flush')}]
+
+
+# behaviour-preserving pack (thorough tier)
+NEUTRAL = [
+  {'name': 'commit: two independent statistic flushes reordered', 'file': 'src/index/updater.rs', 'old': '    Index::increment_statistic(&wtx, Statistic::OutputsTraversed, self.outputs_traversed)?;\n    self.outputs_traversed = 0;\n    Index::increment_statistic(&wtx, Statistic::SatRanges, self.sat_ranges_since_flush)?;\n    self.sat_ranges_since_flush = 0;\n', 'new': '    Index::increment_statistic(&wtx, Statistic::SatRanges, self.sat_ranges_since_flush)?;\n    self.sat_ranges_since_flush = 0;\n    Index::increment_statistic(&wtx, Statistic::OutputsTraversed, self.outputs_traversed)?;\n    self.outputs_traversed = 0;\n'},
+  {'name': 'commit: satpoint literal inlined', 'file': 'src/index/updater.rs', 'old': '            let satpoint = SatPoint { outpoint, offset };\n            sequence_number_to_satpoint.insert(sequence_number, &satpoint.store())?;', 'new': '            sequence_number_to_satpoint.insert(sequence_number, &SatPoint { outpoint, offset }.store())?;'},
+]
